@@ -346,6 +346,14 @@ def rule_decomp(ctx: Ctx) -> RuleReport:
                     rep.ok({"site": f"{fi.qual}: {short(c, 70)}", "max_length": norm(c.args[1]) if len(c.args) >= 2 else "keyword"})
                 else:
                     rep.fail(Finding("C12-DECOMP", fi.module.rel, fi.qual, short(c), "decompress() is called without max_length: the output size is controlled by the stream, not by the declared size", line=c.lineno))
+    # the one-shot functions used as values (a dispatch table, a default argument) are the same unbounded inflation
+    for m in ctx.p.modules.values():
+        if "/tests/" in m.rel:
+            continue
+        called = {id(c.func) for c in ast.walk(m.tree) if isinstance(c, ast.Call)}
+        for a in ast.walk(m.tree):
+            if isinstance(a, ast.Attribute) and a.attr in ("decompress", "open") and id(a) not in called and isinstance(a.value, ast.Name) and m.imports.get(a.value.id, a.value.id) in ("zlib", "bz2", "lzma", "gzip") and a.attr == "decompress":
+                rep.fail(Finding("C12-DECOMP", m.rel, "<module>", f"{a.value.id}.decompress as a value", f"`{a.value.id}.decompress` is stored / passed as a function: whoever calls it inflates the whole stream at once with no output limit (a 300-byte tar.bz2 expands to its full size in memory before any per-member limit is looked at)", line=a.lineno))
     if n < 2:
         raise AnalysisError(f"C12-DECOMP: only {n} decompress() call sites found (floor 2: LZMA and LZMA2 decoders of the 7z reader)")
     return rep
